@@ -98,7 +98,15 @@ static void chunk_case (int mi, Ck *cks, int nck, int interleave, int late, int 
 		if (! t || strcmp (t, "before chunks")) vl_violation (rt_sig ("%s|other-metadata-damaged", rs), "title string lost or changed next to custom chunks") ;
 		}
 	check_invariants (sf, rs, "after re-open") ;
-	if (late) { INLIB (sf_close (sf)) ; return ; }		/* refused or ignored: only the audio is asserted */
+	if (late)
+	{	/* refused or ignored: the audio is intact (above) and none of the late chunks is in the file */
+		for (int i = 0 ; i < nck ; i++)
+		{	SF_CHUNK_INFO ci ; SF_CHUNK_ITERATOR *it ; memset (&ci, 0, sizeof (ci)) ; snprintf (ci.id, sizeof (ci.id), "%s", cks [i].id) ; ci.id_size = (unsigned) strlen (cks [i].id) ;
+			INLIB (it = sf_get_chunk_iterator (sf, &ci)) ;
+			if (it) { vl_violation (rt_sig ("%s|late-chunk-stored", rs), "chunk '%s' set after the audio (sf_set_chunk returned %s) is in the finished file", cks [i].id, accepted [i] ? "0" : "an error") ; break ; }
+			}
+		INLIB (sf_close (sf)) ; return ;
+		}
 
 	/* full iteration: the chunks we set must appear exactly once each, in order (the container's own chunks may be interleaved) */
 	{	SF_CHUNK_ITERATOR *it ; int next = 0, visited = 0, guard = 0 ;
@@ -188,9 +196,9 @@ void run_c13 (void)
 			{	Ck cks [5] ; for (int i = 0 ; i < 5 ; i++) { char id [8] ; snprintf (id, sizeof (id), "i%03d", i) ; ck_make (&cks [i], id, 9 + i, i) ; }
 				vl_root_count (mnames [mi]) ; chunk_case (mi, cks, 5, il, 0, -1, "interleave") ; free_cks (cks, 5) ; vl_end (1, il) ;
 				}
-		for (int n = 1 ; n <= 3 ; n += 2)
-			if (vl_case ("C13 after-audio fmt=%s n=%d", mnames [mi], n))
-			{	Ck cks [3] ; for (int i = 0 ; i < n ; i++) { char id [8] ; snprintf (id, sizeof (id), "l%03d", i) ; ck_make (&cks [i], id, 12, i) ; }
+		for (int n = 1 ; n <= 3 ; n += 2) for (int big = 0 ; big < 2 ; big++)
+			if (vl_case ("C13 after-audio fmt=%s n=%d len=%d", mnames [mi], n, big ? 6000 : 12))
+			{	Ck cks [3] ; for (int i = 0 ; i < n ; i++) { char id [8] ; snprintf (id, sizeof (id), "l%03d", i) ; ck_make (&cks [i], id, big ? 6000 : 12, i) ; }	/* 6000: more than the padding in front of CAF audio */
 				vl_root_count (mnames [mi]) ; chunk_case (mi, cks, n, 0, 1, -1, "after-audio") ; free_cks (cks, n) ; vl_end (1, n) ;
 				}
 		{	static const long modes [5] = { 0, 1, -2, -1, -3 } ;
